@@ -16,12 +16,6 @@ mod verif_demo_c06_vbadec {
     }
     #[test]
     #[should_panic]
-    fn verif_demo_vbadec_bad_chunk_signature() {
-        // chunk header 0x0000: signature bits 0b000 != 0b011 -> assert_eq! panics
-        let _ = decompress_stream(&[0x01, 0x00, 0x00]);
-    }
-    #[test]
-    #[should_panic]
     fn verif_demo_vbadec_raw_chunk_past_end() {
         // header 0x3FFF: signature ok, flag 0 (raw) -> &s[3..3 + 4096] on a 4-byte stream
         let _ = decompress_stream(&[0x01, 0xFF, 0x3F, 0x41]);
